@@ -2,6 +2,7 @@ import PebblesVerif.Basic.J
 import PebblesVerif.Basic.Ast
 import PebblesVerif.Model.Point
 import PebblesVerif.Gen.FindSelection
+import PebblesVerif.Gen.Nulls
 /-!
 Model of the result-tree operations of the executor (executor/utils.go: mergeMaps, mergeSlices;
 executor/result.go: ExtractValueModifyingSource, FindInsertionPoints, extractID;
@@ -218,8 +219,12 @@ def extractID (obj : List (String × J)) : G (Option String) :=
 /-- `FindInsertionPoints` for the single starting branch every caller passes. `remaining` = the
     target points still to be realised, `chunk` = the current result chunk, `branch` = the realised
     insertion point so far. Returns every realised insertion point, in document order; `[]` =
-    nothing to stitch (also when an element only carries `__typename`). -/
-def findIP : List String → List Sel → List (String × J) → List String → G (List (List String))
+    nothing to stitch (also when an element only carries `__typename`).
+
+    `skipNull` = the guard `if iEntry == nil { continue }` stands in the element loop: a `null`
+    element of a list on the path is passed over — the other elements keep their indices; without
+    the guard (before the repair) it fails the call like any other non-map element. -/
+def findIPW (skipNull : Bool) : List String → List Sel → List (String × J) → List String → G (List (List String))
   | [], _, _, branch => .ok [branch]
   | point :: rest, selRoot, chunk, branch =>
     match findSelection point selRoot with
@@ -244,8 +249,13 @@ def findIP : List String → List Sel → List (String × J) → List String →
                 | none => .ok none
                 | some id =>
                   let ep := Point.encodeList (displayName found) i (if last then some id else none)
-                  let sub ← findIP rest (selSub found) entry (branch ++ [ep])
+                  let sub ← findIPW skipNull rest (selSub found) entry (branch ++ [ep])
                   go es' (i + 1) (acc ++ sub)
+              | .null :: es' =>
+                -- `if iEntry == nil { continue }`: the element is passed over and keeps its place — the
+                -- index still advances; without the guard it fails like any non-map
+                if skipNull then go es' (i + 1) acc
+                else .error (.err "entry in result wasn't a map")
               | _ :: _ => .error (.err "entry in result wasn't a map")
             do
               let r ← go entries 0 []
@@ -271,6 +281,12 @@ def findIP : List String → List Sel → List (String × J) → List String →
               | none => .ok []
               | some id => .ok [branch ++ [point ++ "#" ++ id]]
             | _ => .error (.err "root value of result chunk was not an object")
-          else findIP rest (selSub found) chunk' (branch ++ [point])
+          else findIPW skipNull rest (selSub found) chunk' (branch ++ [point])
+
+/-- `FindInsertionPoints` as the code reads now: whether the element loop passes over `null`
+    elements is a regenerated fact (`Gen.Nulls.findIPSkipsNullElements`, read from
+    executor/result.go on every run) -/
+@[reducible] def findIP : List String → List Sel → List (String × J) → List String → G (List (List String)) :=
+  findIPW Gen.Nulls.findIPSkipsNullElements
 
 end PebblesVerif.ResultOps
